@@ -1,7 +1,4 @@
 //! BLTE header structures and parsing
-//!
-//! Uses expect in binrw map functions where Result types cannot be used.
-#![allow(clippy::expect_used)]
 
 use binrw::io::{Read, Seek, Write};
 use binrw::{BinRead, BinResult, BinWrite};
@@ -223,7 +220,9 @@ impl BlteHeader {
 #[allow(clippy::cast_possible_truncation)]
 pub struct ExtendedHeader {
     /// Flags indicating chunk info format
-    #[br(map = |x: u8| HeaderFlags::from_byte(x).expect("valid header flags byte"))]
+    #[br(try_map = |x: u8| HeaderFlags::from_byte(x).ok_or_else(|| {
+        BlteError::InvalidHeader(format!("unknown header flags byte 0x{x:02X}"))
+    }))]
     pub flags: HeaderFlags,
 
     /// 24-bit chunk count (big-endian)
@@ -404,6 +403,16 @@ mod tests {
 
         assert_eq!(HeaderFlags::Standard.chunk_info_size(), 24);
         assert_eq!(HeaderFlags::Extended.chunk_info_size(), 40);
+    }
+
+    #[test]
+    fn test_unknown_header_flags_rejected() {
+        use binrw::BinRead;
+        use binrw::io::Cursor;
+
+        // 0x11 is neither Standard (0x0F) nor Extended (0x10): error, not panic
+        let data = [0x11u8, 0x00, 0x00, 0x00];
+        assert!(ExtendedHeader::read(&mut Cursor::new(&data)).is_err());
     }
 
     #[test]
